@@ -2,41 +2,69 @@
  * Deterministic stand-in for libgomp (C07, binding 3).
  *
  * The repository's dd_dtw_openmp.c is compiled with -fopenmp but linked against this file instead of
- * libgomp.  gcc 12 emits, for "#pragma omp parallel for schedule(guided)", calls to
- *     GOMP_parallel, GOMP_loop_nonmonotonic_guided_start / _next, GOMP_loop_end_nowait.
- * The shim runs the REAL outlined loop bodies on T logical threads (pthreads), but lets exactly one
- * thread run at a time and hands out the loop iterations one by one in the order and to the threads
- * given by a script:   script[k] = (thread, iteration)   for k = 0 .. n-1.
- * Thread switches happen only at chunk boundaries (inside the runtime calls), which is where a
- * conforming OpenMP runtime may interleave work-sharing decisions.  Any schedule kind (static,
- * dynamic, guided, any chunk size, more threads than iterations) is some such script.
+ * libgomp.  gcc emits, for "#pragma omp parallel for schedule(...)", calls to GOMP_parallel and
+ * GOMP_loop_<kind>_start / _next / GOMP_loop_end_nowait (or the combined GOMP_parallel_loop_<kind>); for
+ * schedule(static) it emits only GOMP_parallel and partitions the range itself with
+ * omp_get_num_threads / omp_get_thread_num.  The shim runs the REAL outlined loop bodies on T logical
+ * threads (pthreads) but lets exactly one of them run at a time.
  *
- * Control functions (called through ctypes): shim_set_script, shim_last_error.
+ * Two kinds of script:
+ *
+ *  mode 0 (iteration-granular):  script[k] = (thread, iteration), k = 0..n-1: the iterations are handed out one
+ *      by one in this order to these threads; a thread runs its iteration to the end before the next entry
+ *      is served.  Any static / dynamic / guided schedule with any chunk size is such a script.
+ *
+ *  mode 1 (cell-granular):  order[] is the order in which iterations are handed to whichever thread asks
+ *      next, and choice[] decides at every SCHEDULING POINT which of the live threads runs next
+ *      (choice c picks the (c mod #live)-th live thread).  Scheduling points are: a request for the next
+ *      iteration, a thread leaving the region, and shim_yield(), which the build inserts before and after
+ *      every call of a distance kernel inside dd_dtw_openmp.c (native/shim_wrap.h).  A scalar that is shared
+ *      between the threads by mistake (missing from private(...)) and written before / read after a kernel
+ *      call is then overwritten by another thread deterministically.  When choice[] is used up the lowest
+ *      live thread runs to completion.
+ *
+ * Control functions (called through ctypes): shim_set_script, shim_set_plan, shim_last_error.
+ * Errors: 1 = not every scripted iteration was executed, 2 = iteration outside the loop range,
+ *         3 = internal (baton), 4 = an iteration was executed twice / handed out twice.
  */
 #include <pthread.h>
 #include <stdbool.h>
 #include <stdlib.h>
 #include <string.h>
 
-#define MAX_SCRIPT 4096
+#define MAX_SCRIPT 8192
 #define MAX_THREADS 64
 
+static int g_mode = 0;
 static int g_nthreads = 1;
+static int g_error = 0;
+
+/* mode 0 */
 static long g_len = 0;
 static int g_thread[MAX_SCRIPT];
 static long g_iter[MAX_SCRIPT];
-static int g_error = 0;
+static long g_k = 0;             /* next script entry to hand out */
+static int g_running = -1;
+
+/* mode 1 */
+static long g_norder = 0, g_oi = 0;
+static long g_order[MAX_SCRIPT];
+static long g_nchoice = 0, g_ci = 0;
+static int g_choice[MAX_SCRIPT];
+static int g_current = -1;       /* thread holding the baton */
 
 /* state of the running parallel region */
 static pthread_mutex_t g_mu = PTHREAD_MUTEX_INITIALIZER;
 static pthread_cond_t g_cv = PTHREAD_COND_INITIALIZER;
-static long g_k = 0;             /* next script entry to hand out */
 static long g_start = 0, g_end = 0, g_incr = 1;
 static bool g_loop_open = false;
-static int g_done[MAX_THREADS];  /* thread has left the loop */
+static bool g_loop_used = false;  /* a work-sharing runtime call was made (not schedule(static)) */
+static bool g_in_parallel = false;
+static int g_done[MAX_THREADS];  /* thread has left the region (mode 1) / loop (mode 0) */
 static __thread int t_id = 0;
 
 void shim_set_script(int nthreads, long len, const int *threads, const long *iters) {
+    g_mode = 0;
     g_nthreads = nthreads < 1 ? 1 : (nthreads > MAX_THREADS ? MAX_THREADS : nthreads);
     g_len = len > MAX_SCRIPT ? MAX_SCRIPT : len;
     memcpy(g_thread, threads, sizeof(int) * g_len);
@@ -44,25 +72,85 @@ void shim_set_script(int nthreads, long len, const int *threads, const long *ite
     g_error = 0;
 }
 
+void shim_set_plan(int nthreads, long norder, const long *order, long nchoice, const int *choice) {
+    g_mode = 1;
+    g_nthreads = nthreads < 1 ? 1 : (nthreads > MAX_THREADS ? MAX_THREADS : nthreads);
+    g_norder = norder > MAX_SCRIPT ? MAX_SCRIPT : norder;
+    g_nchoice = nchoice > MAX_SCRIPT ? MAX_SCRIPT : nchoice;
+    memcpy(g_order, order, sizeof(long) * g_norder);
+    memcpy(g_choice, choice, sizeof(int) * g_nchoice);
+    g_error = 0;
+}
+
 int shim_last_error(void) { return g_error; }
+long shim_choices_used(void) { return g_ci; }
 
 int omp_get_thread_num(void) { return t_id; }
-int omp_get_num_threads(void) { return g_nthreads; }
+int omp_get_num_threads(void) { return g_in_parallel ? g_nthreads : 1; }
 int omp_get_max_threads(void) { return g_nthreads; }
 void omp_set_num_threads(int n) { (void)n; }
+int omp_in_parallel(void) { return g_in_parallel ? 1 : 0; }
 
-/* Who may run now: the thread that owns script entry g_k; when the script is exhausted every thread
-   proceeds to leave the loop. */
+/* ---------------------------------------------------------------- mode 1: baton passing */
+
+/* caller holds g_mu */
+static void pass_baton_locked(void) {
+    int live[MAX_THREADS], n = 0;
+    for (int i = 0; i < g_nthreads; i++) if (!g_done[i]) live[n++] = i;
+    if (n == 0) { g_current = -1; pthread_cond_broadcast(&g_cv); return; }
+    int pick;
+    if (g_ci < g_nchoice) {
+        int c = g_choice[g_ci++];
+        if (c < 0) c = -c;
+        pick = live[c % n];
+    } else {
+        pick = live[0];
+    }
+    g_current = pick;
+    pthread_cond_broadcast(&g_cv);
+}
+
+static void sched_point(void) {
+    pthread_mutex_lock(&g_mu);
+    pass_baton_locked();
+    while (g_current != t_id) pthread_cond_wait(&g_cv, &g_mu);
+    pthread_mutex_unlock(&g_mu);
+}
+
+void shim_yield(void) {
+    if (g_mode == 1 && g_in_parallel) sched_point();
+}
+
+double shim_after(double v) {
+    shim_yield();
+    return v;
+}
+
+static bool take_mode1(long *istart, long *iend) {
+    sched_point();
+    pthread_mutex_lock(&g_mu);
+    bool ok = false;
+    if (g_oi < g_norder) {
+        long it = g_order[g_oi++];
+        if (it < 0 || (g_incr > 0 ? g_start + it * g_incr >= g_end : g_start + it * g_incr <= g_end)) g_error = 2;
+        *istart = g_start + it * g_incr;
+        *iend = *istart + g_incr;
+        ok = true;
+    }
+    pthread_mutex_unlock(&g_mu);
+    return ok;
+}
+
+/* ---------------------------------------------------------------- mode 0: (thread, iteration) script */
+
 static bool my_turn(void) {
     if (g_k >= g_len) return true;
     return g_thread[g_k] == t_id;
 }
 
-/* Take the next iteration for this thread, or report that there is none left for it. */
 static bool take(long *istart, long *iend) {
     pthread_mutex_lock(&g_mu);
     for (;;) {
-        /* does the remaining script still hold an entry for this thread? */
         bool mine_left = false;
         for (long k = g_k; k < g_len; k++) {
             if (g_thread[k] == t_id) { mine_left = true; break; }
@@ -87,11 +175,6 @@ static bool take(long *istart, long *iend) {
     }
 }
 
-/* The thread that got an iteration runs it until it comes back for the next one; meanwhile the
-   others wait in take().  To keep "one runnable at a time" a thread that holds the next script entry
-   only starts once the previous owner is back inside the runtime: enforced with g_running. */
-static int g_running = -1;
-
 static bool take_exclusive(long *istart, long *iend) {
     pthread_mutex_lock(&g_mu);
     if (g_running == t_id) g_running = -1;      /* back inside the runtime */
@@ -109,57 +192,147 @@ static bool take_exclusive(long *istart, long *iend) {
             pthread_mutex_unlock(&g_mu);
             return true;
         }
-        /* lost a race for the baton: cannot happen because take() hands entries out in script order
-           and only the owner of entry g_k proceeds */
         g_error = 3;
         pthread_mutex_unlock(&g_mu);
         return true;
     }
 }
 
-bool GOMP_loop_nonmonotonic_guided_start(long start, long end, long incr, long chunk, long *istart, long *iend) {
-    (void)chunk;
+/* ---------------------------------------------------------------- the GOMP entry points */
+
+static void open_loop(long start, long end, long incr) {
     pthread_mutex_lock(&g_mu);
     if (!g_loop_open) {
-        g_start = start; g_end = end; g_incr = incr; g_loop_open = true;
+        g_start = start; g_end = end; g_incr = incr == 0 ? 1 : incr; g_loop_open = true;
     }
+    g_loop_used = true;
     pthread_mutex_unlock(&g_mu);
-    return take_exclusive(istart, iend);
 }
 
-bool GOMP_loop_nonmonotonic_guided_next(long *istart, long *iend) {
-    return take_exclusive(istart, iend);
+static bool next_iter(long *istart, long *iend) {
+    return g_mode == 1 ? take_mode1(istart, iend) : take_exclusive(istart, iend);
 }
 
-void GOMP_loop_end_nowait(void) {
+#define LOOP_START(name) \
+    bool name(long start, long end, long incr, long chunk, long *istart, long *iend) { \
+        (void)chunk; open_loop(start, end, incr); return next_iter(istart, iend); }
+#define LOOP_START_NOCHUNK(name) \
+    bool name(long start, long end, long incr, long *istart, long *iend) { \
+        open_loop(start, end, incr); return next_iter(istart, iend); }
+#define LOOP_NEXT(name) \
+    bool name(long *istart, long *iend) { return next_iter(istart, iend); }
+
+LOOP_START(GOMP_loop_nonmonotonic_guided_start)
+LOOP_NEXT(GOMP_loop_nonmonotonic_guided_next)
+LOOP_START(GOMP_loop_guided_start)
+LOOP_NEXT(GOMP_loop_guided_next)
+LOOP_START(GOMP_loop_nonmonotonic_dynamic_start)
+LOOP_NEXT(GOMP_loop_nonmonotonic_dynamic_next)
+LOOP_START(GOMP_loop_dynamic_start)
+LOOP_NEXT(GOMP_loop_dynamic_next)
+LOOP_START(GOMP_loop_static_start)
+LOOP_NEXT(GOMP_loop_static_next)
+LOOP_START_NOCHUNK(GOMP_loop_runtime_start)
+LOOP_NEXT(GOMP_loop_runtime_next)
+LOOP_START_NOCHUNK(GOMP_loop_nonmonotonic_runtime_start)
+LOOP_NEXT(GOMP_loop_nonmonotonic_runtime_next)
+LOOP_START_NOCHUNK(GOMP_loop_maybe_nonmonotonic_runtime_start)
+LOOP_NEXT(GOMP_loop_maybe_nonmonotonic_runtime_next)
+
+static void leave_loop(void) {
     pthread_mutex_lock(&g_mu);
-    if (g_running == t_id) g_running = -1;
+    if (g_mode == 0 && g_running == t_id) g_running = -1;
     pthread_cond_broadcast(&g_cv);
     pthread_mutex_unlock(&g_mu);
 }
 
+void GOMP_loop_end_nowait(void) { leave_loop(); }
+void GOMP_loop_end(void) { leave_loop(); }
+bool GOMP_loop_end_cancel(void) { leave_loop(); return false; }
+void GOMP_barrier(void) { }
+
 struct launch { void (*fn)(void *); void *data; int id; };
+
+static void thread_enter(void) {
+    if (g_mode == 1) {
+        pthread_mutex_lock(&g_mu);
+        while (g_current != t_id) pthread_cond_wait(&g_cv, &g_mu);
+        pthread_mutex_unlock(&g_mu);
+    }
+}
+
+static void thread_leave(void) {
+    if (g_mode == 1) {
+        pthread_mutex_lock(&g_mu);
+        g_done[t_id] = 1;
+        pass_baton_locked();
+        pthread_mutex_unlock(&g_mu);
+    }
+}
 
 static void *trampoline(void *arg) {
     struct launch *l = (struct launch *)arg;
     t_id = l->id;
+    thread_enter();
     l->fn(l->data);
+    thread_leave();
     return NULL;
 }
 
-void GOMP_parallel(void (*fn)(void *), void *data, unsigned num_threads, unsigned flags) {
-    (void)num_threads; (void)flags;
+static void run_region(void (*fn)(void *), void *data) {
     pthread_t th[MAX_THREADS];
     struct launch ls[MAX_THREADS];
-    g_k = 0; g_loop_open = false; g_running = -1;
+    g_k = 0; g_running = -1; g_oi = 0; g_ci = 0; g_current = -1;
+    g_in_parallel = true;
     for (int i = 0; i < g_nthreads; i++) g_done[i] = 0;
     for (int i = 1; i < g_nthreads; i++) {
         ls[i].fn = fn; ls[i].data = data; ls[i].id = i;
         pthread_create(&th[i], NULL, trampoline, &ls[i]);
     }
     t_id = 0;
+    if (g_mode == 1) {
+        pthread_mutex_lock(&g_mu);
+        pass_baton_locked();
+        while (g_current != 0) pthread_cond_wait(&g_cv, &g_mu);
+        pthread_mutex_unlock(&g_mu);
+    }
     fn(data);
+    thread_leave();
     for (int i = 1; i < g_nthreads; i++) pthread_join(th[i], NULL);
-    if (g_k != g_len) g_error = 1;      /* not every scripted iteration was executed */
+    g_in_parallel = false;
+    if (g_loop_used) {
+        /* not every scripted iteration was executed */
+        if (g_mode == 0 && g_k != g_len) g_error = g_error ? g_error : 1;
+        if (g_mode == 1 && g_oi != g_norder) g_error = g_error ? g_error : 1;
+    }
     g_loop_open = false;
 }
+
+void GOMP_parallel(void (*fn)(void *), void *data, unsigned num_threads, unsigned flags) {
+    (void)num_threads; (void)flags;
+    g_loop_open = false; g_loop_used = false;
+    run_region(fn, data);
+}
+
+/* combined constructs: the loop is opened before the region starts, the body calls only _next */
+#define PARALLEL_LOOP(name) \
+    void name(void (*fn)(void *), void *data, unsigned num_threads, long start, long end, long incr, \
+              long chunk, unsigned flags) { \
+        (void)num_threads; (void)flags; (void)chunk; \
+        g_loop_open = false; g_loop_used = false; \
+        open_loop(start, end, incr); run_region(fn, data); }
+#define PARALLEL_LOOP_NOCHUNK(name) \
+    void name(void (*fn)(void *), void *data, unsigned num_threads, long start, long end, long incr, \
+              unsigned flags) { \
+        (void)num_threads; (void)flags; \
+        g_loop_open = false; g_loop_used = false; \
+        open_loop(start, end, incr); run_region(fn, data); }
+
+PARALLEL_LOOP(GOMP_parallel_loop_nonmonotonic_guided)
+PARALLEL_LOOP(GOMP_parallel_loop_guided)
+PARALLEL_LOOP(GOMP_parallel_loop_nonmonotonic_dynamic)
+PARALLEL_LOOP(GOMP_parallel_loop_dynamic)
+PARALLEL_LOOP(GOMP_parallel_loop_static)
+PARALLEL_LOOP_NOCHUNK(GOMP_parallel_loop_runtime)
+PARALLEL_LOOP_NOCHUNK(GOMP_parallel_loop_nonmonotonic_runtime)
+PARALLEL_LOOP_NOCHUNK(GOMP_parallel_loop_maybe_nonmonotonic_runtime)
